@@ -63,8 +63,8 @@ HistV == IF cx.kind # "hist" THEN "T"
                   ELSE IF o.mut # <<>> THEN "F:case-mutated" ELSE "T"
 MethodV == IF o.m = cx.wantMethod THEN "T" ELSE "F"
 (* Content-Type = the case's media type; for multipart the client appends the boundary parameter, so only the media type is compared *)
-Multipart == cx.media \in {"multipart", "multipart-file", "multipart-raw"}
-BodyOutside == Multipart \/ cx.media \in CtypeOnlyMedia        \* payload encoding outside the fragment: the Content-Type clause alone is judged
+Multipart == cx.media \in MultipartMedia \cup {"multipart-raw"}
+BodyOutside == cx.media \in CtypeOnlyMedia        \* payload encoding outside the fragment: the Content-Type clause alone is judged
 CtypeV == IF (IF Multipart THEN MediaTypeOf(o.ct) = cx.wantCtype ELSE o.ct = cx.wantCtype) THEN "T" ELSE "F"
 
 BodyText == Utf8Decode(o.b)
@@ -73,7 +73,8 @@ FormPairs == LET kv == QParts(o.b)
                  vs == Dec([j \in 1..Len(kv) |-> kv[j].b], "form")
              IN  {[k |-> "obj", keys |-> x, items |-> y] : x \in ks, y \in vs}
 BodyV == CASE cx.media = "none" -> IF o.b = <<>> THEN "T" ELSE "F"
-           [] BodyOutside -> "U"                       \* the multipart encoding is outside the fragment
+           [] BodyOutside -> "U"                       \* YAML / XML / binary / a non-object value wrapped as multipart: outside the fragment
+           [] cx.media \in MultipartMedia -> MultipartVerdict(obval, o.ct, o.b)      \* RFC 2046 / RFC 7578 decoding, field by field
            [] cx.media \in {"json", "json-suffix"} -> LET j == JsonParse(BodyText.t)
                                    IN  IF ~BodyText.bad /\ j.ok /\ SameTyped(j.val, obval) THEN "T" ELSE "F"
            [] cx.media \in {"form", "form-list"} -> IF \E j \in 1..Len(obval.items) : obval.items[j].t \in {"bool", "null"} THEN "U"
